@@ -54,6 +54,7 @@ def run_client(spec, acc):
             if kind == "actisense":
                 return (wire.actisense_line(ev.prio, ev.pgn, ev.src, 255, ev.data) + "\r\n").encode()
             return packetise(kind, ev, rng)
+        late = rep % 4 == 3          # the application registers its receive callback only after the devices have announced themselves
         first = [pk(hist.claim_event(s_, names[s_])) for s_ in sources]
         data = []
         for _ in range(10):
@@ -62,17 +63,27 @@ def run_client(spec, acc):
             if pb is None:
                 continue
             data.append(pk(hist.Ev(rng.randrange(8), d.pgn, rng.choice(sources), 255, pb, "single", definition=d.id)))
-        first += data[:3]
-        second = data[3:]
+        if not late:
+            first += data[:3]
+            second = data[3:]
+        else:
+            second = list(data)
         want, _ = expected_messages(kind, first + second, settings)
+        if late:
+            want = [w_ for w_ in want if w_[0] != 60928]          # (nobody was listening when the claims came in)
+            acc.count("client_sessions_with_the_callback_registered_after_the_claims")
 
         async def scenario(sim):
             sim.spawn("connect")
             await asyncio.sleep(0.05)
             if not sim.conns:
                 return
+            if late:
+                sim.client.set_receive_callback(None)
             sim.conns[0].feed(b"".join(first))
             await asyncio.sleep(0.5)
+            if late:
+                sim.client.set_receive_callback(sim._styled(sim._on_receive))
             if kind == "waveshare" or rep % 2:
                 sim.conns[0].reset(simgw.link_loss(kind))
             else:
